@@ -13,4 +13,6 @@ def run_text(ctx, pid):
 
 def check_text(case, stats, pid):
     from . import textdocs_impl
+    if case.get("sub") == "rawtext":
+        return textdocs_impl.check_rawtext(case, stats)
     return textdocs_impl.check_text(case, stats, pid)
